@@ -128,6 +128,16 @@ def check_not_normalised(ctx: Ctx, rule: str):
     raw = [c for c in comps if _av.show(_av._unwrap_seq(c[2])) == f"{ep}.args"]
     over_simplified = [c for c in comps if simp and _av._unwrap_seq(c[2]) == ("attr", simp[0], "args")]
     ok = bool(simp) and not raw and len(over_simplified) == len([c for c in comps if c[2][0] != "comp"])
+    # ... and the front end builds logical connectives *evaluated* (sympy then rewrites Not(a > b) to a <= b at
+    # construction); an unevaluated Not reaches the printers of top-level conditionals, which do not go through simplify
+    be = ctx.sm.func("expressions.py", "build_expression.expr2symbols", required=False)
+    if be is not None:
+        bv_ = util.value_of(ctx, be)
+        cases = util.dispatch_cases(bv_, ("sym", f"{be.params[0]}.data"))
+        lv = cases.get("logicalfunc")
+        if lv is not None and not _av.has_unk(lv):
+            uneval = [c for c in _av.find_all(lv, "call") if ("evaluate", _av.C(False)) in c[3]]
+            ctx.check(not uneval, rule, be.key("logical-connectives-evaluated"), "And / Or / Not and the relations are built evaluated", f"expr2symbols builds a logical connective unevaluated (`{_av.show(uneval[0])[:90] if uneval else ''}`): a negation that sympy would have rewritten into a relation survives to the NumPy printer's scalar-only `not (...)` (and the .ode writer's `~(...)`)", be.where())
     ctx.check(ok, rule, key, "the Piecewise is normalised by sympy.simplify before any branch or condition is printed", "base._print_Piecewise no longer passes the Piecewise through sympy.simplify before printing: a condition Not(And(..)) would reach the python printer's scalar-only `not (...)` (and the .ode writer's `~(...)`)", f.where())
 
 
